@@ -935,3 +935,215 @@ Proof.
       * exists (set_reg sg1 (Rg BR r) b). split; [|apply Rel_set_reg; [apply R23; exact P|exact Ur3]].
         eapply sx_cons; [|apply sx_nil]. apply sx_Loop. exact X.
 Qed.
+
+Lemma sim_loop : forall cb v oreg a b step body, sim_block body -> sim_stmt (SLoop cb v oreg a b step body).
+Proof.
+  intros cb v oreg a b step body IH Hw L st code st' e e' sg H I HL Hev HR.
+  destruct oreg; [discriminate|]. cbn [wfs] in Hw.
+  apply andb_prop in Hw. destruct Hw as [Hw Hz]. apply andb_prop in Hw. destruct Hw as [Hwb Hwf].
+  cbn [lower_stmt] in H. destruct (alook v (l_lv st)) eqn:Hv; [discriminate|].
+  destruct (take st) as [[r s1]|] eqn:Ht; cbn [bind] in H; [|discriminate].
+  destruct (lower_block true body (bind_lvr v r s1)) as [[cbody s2]|] eqn:Hb; cbn [bind] in H; [|discriminate].
+  cbn [eval_stmt] in Hev. destruct (loop_count a b step) as [n|] eqn:Hc; [|discriminate].
+  destruct (iter_loop _ n a step e) as [e1|] eqn:Hit; [|discriminate]. inv_ok Hev.
+  destruct (loop_count_spec _ _ _ _ Hc) as [Hst Hbd].
+  assert (HL2 : sub (l_len s2) L) by (destruct (is_nil cbody); inv_ok H; exact HL).
+  destruct (loop_core L st v r s1 body cbody s2 a b step n e e1 sg IH Hwf Hwb) as (sg' & X & R'); auto.
+  - intros ->. apply orb_prop in Hz. destruct Hz as [Hz|Hz]; [|exact Hz].
+    apply negb_true_iff in Hz. apply Z.eqb_neq in Hz. lia.
+  - exists sg'. unfold Lower.R in H. destruct (is_nil cbody); inv_ok H; split; assumption.
+Qed.
+
+Lemma sim_foreach : forall enum v a body, sim_block body -> sim_stmt (SForeach enum v a body).
+Proof.
+  intros enum v a body IH Hw L st code st' e e' sg H I HL Hev HR.
+  cbn [wfs] in Hw. apply andb_prop in Hw. destruct Hw as [Hw Hwf]. apply andb_prop in Hw. destruct Hw as [Hwb Hnr].
+  destruct (proj2 wfs_plain body Hwf) as [Hp He].
+  cbn [lower_stmt] in H. destruct (alook a (l_len st)) as [n|] eqn:Hlen; [|discriminate].
+  destruct (alook v (l_lv st)) eqn:Hv; [discriminate|].
+  destruct (take st) as [[r s1]|] eqn:Ht; cbn [bind] in H; [|discriminate].
+  destruct (lower_block true body (bind_lvr v r s1)) as [[cbody s2]|] eqn:Hb; cbn [bind] in H; [|discriminate].
+  cbn [eval_stmt] in Hev. destruct (alookup a (e_arr e)) as [l|] eqn:Ea; [|discriminate].
+  destruct (iter_loop _ (List.length l) 0%Z 1%Z e) as [e1|] eqn:Hit; [|discriminate]. inv_ok Hev.
+  assert (HL2 : sub (l_len s2) L) by (destruct (is_nil cbody); inv_ok H; exact HL).
+  (* the length known at compile time is the length of the array *)
+  assert (Hn : List.length l = n).
+  { assert (Ib := Inv_bind_loop _ _ _ v Ht I).
+    destruct (proj2 lower_facts body Hp He _ _ _ Hb Ib) as [_ X2].
+    assert (HaL : alook a L = Some n).
+    { apply HL2. apply (x_len _ _ X2). cbn. destruct (take_other_fields _ _ _ Ht) as (_ & _ & _ & _ & _ & _ & E8 & _).
+      rewrite E8. exact Hlen. }
+    destruct (r_len _ _ _ _ HR _ _ HaL) as (l0 & H0 & L0). rewrite Ea in H0. inv_ok H0. reflexivity. }
+  destruct (loop_core L st v r s1 body cbody s2 0%Z (Z.of_nat n) 1%Z n e e1 sg IH Hwf Hwb) as (sg' & X & R'); auto.
+  - lia.
+  - lia.
+  - rewrite <- Hn. exact Hit.
+  - exists sg'. unfold Lower.R in H. destruct (is_nil cbody); inv_ok H; split; assumption.
+Qed.
+
+(* ------------------------------------------------------------------ loop_until *)
+Lemma emits_stmt_nonnil : forall s st c st', emits_stmt s = true -> lower_stmt true s st = Ok (c, st') -> c <> [].
+Proof.
+  intros s st c st' He H. destruct s; try discriminate; cbn [lower_stmt] in H.
+  - destruct (alook q (l_q st)); [discriminate|]. inv_ok H. discriminate.
+  - destruct (qubit_id q st); cbn [bind] in H; [|discriminate]. inv_ok H. discriminate.
+  - destruct (qubit_id q st); cbn [bind] in H; [|discriminate]. inv_ok H. discriminate.
+  - destruct (qubit_id q1 st); cbn [bind] in H; [|discriminate].
+    destruct (qubit_id q2 st); cbn [bind] in H; [|discriminate]. inv_ok H. discriminate.
+  - destruct (low_ix ix st); cbn [bind] in H; [|discriminate].
+    destruct (low_meas q inplace false st) as [[[m c0] s1]|]; cbn [bind] in H; [|discriminate]. inv_ok H.
+    intro X. apply app_eq_nil in X. destruct X; discriminate.
+  - destruct (declare a 1 None st) as [s0|]; cbn [bind] in H; [|discriminate].
+    destruct (low_meas q inplace false s0) as [[[m c0] s1]|]; cbn [bind] in H; [|discriminate]. inv_ok H.
+    intro X. apply app_eq_nil in X. destruct X; discriminate.
+  - destruct (alook r (l_rf st)); [discriminate|].
+    destruct (low_meas q inplace true st) as [[[m c0] s1]|] eqn:Em; cbn [bind] in H; [|discriminate]. inv_ok H.
+    destruct (low_meas_facts _ _ _ _ _ _ _ Em) as (id & _ & _ & _ & _ & _ & _ & _ & _ & _ & _ & _ & Ec).
+    rewrite Ec. discriminate.
+  - destruct (qubit_id q st); cbn [bind] in H; [|discriminate]. inv_ok H. discriminate.
+  - destruct (low_ix ix st); cbn [bind] in H; [|discriminate].
+    destruct (take st) as [[t s1]|]; cbn [bind] in H; [|discriminate].
+    destruct (low_src o s1) as [[[[lo y] ts] s2]|]; cbn [bind] in H; [|discriminate].
+    match type of H with Ok (?cc, _) = _ => assert (Ec : c = cc) by (inversion H; reflexivity) end.
+    rewrite Ec. cbn. discriminate.
+  - destruct (rf_lookup r st) as [[[] k]|]; try discriminate.
+    destruct (low_src o st) as [[[[lo y] ts] s1]|]; cbn [bind] in H; [|discriminate].
+    match type of H with Ok (?cc, _) = _ => assert (Ec : c = cc) by (inversion H; reflexivity) end.
+    rewrite Ec. rewrite map_app. intro X. apply app_eq_nil in X. destruct X as [_ X]. destruct m; discriminate.
+Qed.
+
+Lemma emits_nonnil : forall b st c st', emits b = true -> lower_block true b st = Ok (c, st') -> c <> [].
+Proof.
+  induction b as [|s b IH]; intros st c st' He H; [discriminate|].
+  cbn [emits] in He. cbn [lower_block] in H.
+  destruct (lower_stmt true s st) as [[c1 s1]|] eqn:H1; cbn [bind] in H; [|discriminate].
+  destruct (lower_block true b s1) as [[c2 s2]|] eqn:H2; cbn [bind] in H; [|discriminate]. inv_ok H.
+  intro X. apply app_eq_nil in X. destruct X as [X1 X2].
+  apply orb_prop in He. destruct He as [He|He].
+  - eapply emits_stmt_nonnil; eauto.
+  - eapply IH; eauto.
+Qed.
+
+Lemma sim_until : forall v mx body cx bound cl,
+  sim_block body -> sim_block cl -> sim_stmt (SLoopUntil v mx body cx bound cl).
+Proof.
+  intros v mx body cx bound cl IHb IHc Hw L st code st' e e' sg H I HL Hev HR.
+  cbn [wfs] in Hw.
+  apply andb_prop in Hw. destruct Hw as [Hw Hem]. apply andb_prop in Hw. destruct Hw as [Hw Hz].
+  apply andb_prop in Hw. destruct Hw as [Hw Hnr2]. apply andb_prop in Hw. destruct Hw as [Hw Hwf2].
+  apply andb_prop in Hw. destruct Hw as [Hw Hwf1]. apply andb_prop in Hw. destruct Hw as [Hwb1 Hwb2].
+  destruct (proj2 wfs_plain body Hwf1) as [Hp1 He1]. destruct (proj2 wfs_plain cl Hwf2) as [Hp2 He2].
+  cbn [lower_stmt] in H. destruct (alook v (l_lv st)) eqn:Hv; [discriminate|].
+  destruct (take st) as [[r s1]|] eqn:Ht; cbn [bind] in H; [|discriminate].
+  destruct (lower_block true body (bind_lvr v r s1)) as [[cbody s2]|] eqn:Hb; cbn [bind] in H; [|discriminate].
+  assert (Hne := emits_nonnil _ _ _ _ Hem Hb).
+  destruct cbody as [|c0 cr]; [contradiction|]. cbn [is_nil] in H.
+  destruct (low_cval cx s2) as [[[[lx px] tx] s3]|] eqn:Hx; cbn [bind] in H; [|discriminate].
+  destruct (lower_block true cl (release_all tx s3)) as [[ccl s4]|] eqn:Hc; cbn [bind] in H; [|discriminate].
+  inv_ok H. unfold Lower.R.
+  cbn [eval_stmt] in Hev. destruct (mx <? 0)%Z eqn:Hmx; [discriminate|]. apply Z.ltb_ge in Hmx.
+  destruct (iter_until _ _ _ _ (Z.to_nat mx) 0%Z e) as [e1|] eqn:Hit; [|discriminate]. inv_ok Hev.
+  (* compile-time facts *)
+  assert (Tf := take_facts _ _ _ Ht). destruct Tf as (Hfree & Hact1 & _ & Lv1 & Rf1 & Q1 & _).
+  assert (Ib := Inv_bind_loop _ _ _ v Ht I).
+  destruct (proj2 lower_facts body Hp1 He1 _ _ _ Hb Ib) as [I2 X2].
+  assert (Q2 := body_q_restored _ _ _ _ Hp1 He1 Hwb1 Hb Ib). cbn [bind_lvr with_lvs l_q] in Q2.
+  assert (Hh := low_cval_held _ _ _ _ _ _ Hx).
+  set (s3' := release_all tx s3) in *.
+  assert (S3 : sba s2 s3') by (eapply sba_trans; [eapply sba_held; eauto|apply sba_release_all]).
+  assert (A3 : l_act s3' = l_act s2) by exact (proj1 (held_release _ _ _ Hh)).
+  assert (I3 := Inv_sba _ _ S3 A3 I2).
+  destruct (proj2 lower_facts cl Hp2 He2 _ _ _ Hc I3) as [I4 X4].
+  assert (Q4 := body_q_restored _ _ _ _ Hp2 He2 Hwb2 Hc I3).
+  destruct (proj2 noreg_rf cl Hnr2 Hp2 He2 _ _ _ Hc) as [RF4 _].
+  destruct S3 as (S3m & S3q & S3n & S3r & S3f & S3v & S3l & S3d).
+  assert (Lv2 : l_lv s2 = (v, r) :: l_lv st) by (rewrite (x_lv _ _ X2); cbn; rewrite Lv1; reflexivity).
+  assert (Lv4 : l_lv s4 = (v, r) :: l_lv st) by (rewrite (x_lv _ _ X4), S3v; exact Lv2).
+  set (stF := release r (with_lvs s4 (l_lv st))) in *.
+  assert (X24 : Ext (bind_lvr v r s1) s4).
+  { eapply Ext_trans; [exact X2|]. eapply Ext_trans; [|exact X4]. apply Ext_sba; [|exact A3].
+    unfold sba; repeat split; assumption. }
+  assert (IFX : Inv stF /\ Ext st stF) by (eapply close_loop; eauto). destruct IFX as [IF XF].
+  assert (UrF : untracked stF (Rg BR r)).
+  { apply untracked_free; [exact IF|]. rewrite (x_act _ _ XF). exact Hfree. }
+  assert (Ur1 : untracked s1 (Rg BR r)).
+  { split; [|intros; discriminate]. intros v' r' Hv' X. inversion X; subst. rewrite Lv1 in Hv'.
+    rewrite (i_lv _ I _ _ Hv') in Hfree. discriminate. }
+  assert (HL2 : sub (l_len s2) L).
+  { eapply sub_trans; [|exact HL]. cbn. eapply sub_trans; [|exact (x_len _ _ X4)]. rewrite S3l. apply sub_refl. }
+  assert (HL4 : sub (l_len s4) L) by exact HL.
+  assert (lv_in : forall v' r', alook v' (l_lv st) = Some r' -> alook v' ((v, r) :: l_lv st) = Some r').
+  { intros v' r' Hv'. cbn. destruct (Nat.eqb v' v) eqn:Ev; [apply Nat.eqb_eq in Ev; subst; congruence|exact Hv']. }
+  assert (R2F : forall e0 s0, Rel L s2 e0 s0 -> Rel L stF (drop_lv v e0) s0).
+  { intros e0 s0 R0. apply Rel_drop; [|exact Hv]. eapply Rel_st; [exact R0| | |].
+    - cbn. congruence.
+    - intros v' r' Hv'. cbn in Hv'. rewrite Lv2. auto.
+    - intros r' m Hr. cbn in Hr. congruence. }
+  assert (R4F : forall e0 s0, Rel L s4 e0 s0 -> Rel L stF (drop_lv v e0) s0).
+  { intros e0 s0 R0. apply Rel_drop; [|exact Hv]. eapply Rel_st; [exact R0|reflexivity| |].
+    - intros v' r' Hv'. cbn in Hv'. rewrite Lv4. auto.
+    - intros r' m Hr. exact Hr. }
+  assert (R41 : forall e0 s0, Rel L s4 e0 s0 -> Rel L s1 e0 s0).
+  { intros e0 s0 R0. eapply Rel_st; [exact R0|congruence| |].
+    - intros v' r' Hv'. rewrite Lv4. rewrite Lv1 in Hv'. auto.
+    - intros r' m Hr. rewrite RF4, S3f. apply (x_rf _ _ X2). cbn. exact Hr. }
+  assert (Hfr1 : forall s0 s0', sx (c0 :: cr) s0 s0' -> m_reg s0' (Rg BR r) = m_reg s0 (Rg BR r)).
+  { intros s0 s0' Hsx. apply (proj1 sx_frame _ _ _ Hsx). intro Hin.
+    assert (F := proj2 (lower_frame_all true) body Hp1 _ _ _ Hb r Hin). unfold free_at in F.
+    cbn [bind_lvr with_lvs l_act] in F. rewrite Hact1 in F.
+    rewrite nth_set_nth_same in F by (apply nth_error_Some; congruence). discriminate. }
+  assert (Act2 : nth_error (l_act s2) r = Some true).
+  { rewrite (x_act _ _ X2). cbn. rewrite Hact1. apply nth_set_nth_same. apply nth_error_Some. congruence. }
+  assert (Hfr2 : forall s0 s0', sx ccl s0 s0' -> m_reg s0' (Rg BR r) = m_reg s0 (Rg BR r)).
+  { intros s0 s0' Hsx. apply (proj1 sx_frame _ _ _ Hsx). intro Hin.
+    assert (F := proj2 (lower_frame_all true) cl Hp2 _ _ _ Hc r Hin). unfold free_at in F.
+    rewrite A3, Act2 in F. discriminate. }
+  (* the rounds *)
+  assert (Rounds : forall n i e0 s0 e2,
+            Rel L s1 e0 s0 -> (n = 0 -> Rel L stF (drop_lv v e0) s0) -> m_reg s0 (Rg BR r) = Some i ->
+            mx = (i + Z.of_nat n)%Z ->
+            iter_until (fun i e' => eval_block body (bind_lv v i (drop_lv v e'))) (ev_cval cx) bound
+                       (eval_block cl) n i e0 = Some e2 ->
+            exists s', sxuntil (Rg BR r) mx (c0 :: cr) lx px (bound + 1)%Z ccl s0 s' /\ Rel L stF (drop_lv v e2) s').
+  { induction n as [|n IHn]; intros i e0 s0 e2 R0 RF0 Hr Hmxi Hiu; cbn [iter_until] in Hiu.
+    - inv_ok Hiu. exists s0. split; [|apply RF0; reflexivity]. apply sxu_max. rewrite Hr. f_equal. lia.
+    - destruct (eval_block body (bind_lv v i (drop_lv v e0))) as [eb|] eqn:Eb; [|discriminate].
+      destruct (ev_cval cx eb) as [w|] eqn:Ew; [|discriminate].
+      assert (Rb : Rel L (bind_lvr v r s1) (bind_lv v i (drop_lv v e0)) s0).
+      { apply Rel_bind; [exact R0|congruence|exact Hr]. }
+      destruct (IHb Hwf1 L _ _ _ _ _ _ Hb Ib HL2 Eb Rb) as (sg1 & Xb & R1).
+      assert (Hr1 : m_reg sg1 (Rg BR r) = Some i) by (rewrite (Hfr1 _ _ Xb); exact Hr).
+      destruct (cval_sim L cx s2 s2 lx px tx s3 eb sg1 w Hx Ew R1 I2 eq_refl eq_refl) as (sg2 & E2 & R2 & V2 & K2 & _).
+      { intros t Hf. apply untracked_free; assumption. }
+      assert (Hr2 : m_reg sg2 (Rg BR r) = Some i).
+      { rewrite K2; [exact Hr1|]. intros t Hin X. inversion X; subst.
+        rewrite (held_ts_free _ _ _ _ Hh Hin) in Act2. discriminate. }
+      destruct (w <=? bound)%Z eqn:Hle.
+      + inv_ok Hiu. exists sg2. split; [|apply R2F; exact R2].
+        eapply sxu_exit with (v := i) (w := w); eauto; [lia|]. apply Z.leb_le in Hle. apply Z.ltb_lt. lia.
+      + destruct (eval_block cl eb) as [ec|] eqn:Ec; [|discriminate].
+        assert (R3 : Rel L s3' eb sg2) by (eapply Rel_sba; [exact R2|unfold sba; repeat split; assumption]).
+        destruct (IHc Hwf2 L _ _ _ _ _ _ Hc I3 HL4 Ec R3) as (sg3 & Xc & R4).
+        assert (Hr3 : m_reg sg3 (Rg BR r) = Some i) by (rewrite (Hfr2 _ _ Xc); exact Hr2).
+        destruct (IHn (i + 1)%Z ec (set_reg sg3 (Rg BR r) (i + 1)%Z) e2) as (s' & Xu & RF'); auto.
+        * apply Rel_set_reg; [apply R41; exact R4|exact Ur1].
+        * intros _. apply Rel_set_reg; [apply R4F; exact R4|exact UrF].
+        * apply m_reg_set_same.
+        * lia.
+        * exists s'. split; [|exact RF'].
+          eapply sxu_again with (v := i) (w := w) (v3 := i); eauto; [lia|]. apply Z.leb_gt in Hle. apply Z.ltb_ge. lia. }
+  assert (R01 : Rel L s1 e sg) by (eapply Rel_sba; [exact HR|eapply sba_take; eauto]).
+  destruct (Rounds (Z.to_nat mx) 0%Z e (set_reg sg (Rg BR r) 0%Z) e1) as (s' & Xu & RF'); auto.
+  - apply Rel_set_reg; assumption.
+  - intros Hn0. assert (mx = 0%Z) by lia. subst mx.
+    assert (Hnr1 : bnoreg body = true) by (cbn in Hz; exact Hz).
+    destruct (proj2 noreg_rf body Hnr1 Hp1 He1 _ _ _ Hb) as [RF2 _]. cbn [bind_lvr with_lvs l_rf] in RF2.
+    apply Rel_set_reg; [|exact UrF]. apply Rel_drop; [|exact Hv].
+    eapply Rel_st; [exact HR| | |].
+    + cbn. congruence.
+    + intros v' r' Hv'. exact Hv'.
+    + intros r' m Hr. cbn in Hr. congruence.
+  - apply m_reg_set_same.
+  - rewrite Z2Nat.id by lia. lia.
+  - exists s'. split; [|exact RF']. eapply sx_cons; [|apply sx_nil]. apply sx_Until. exact Xu.
+Qed.
